@@ -44,6 +44,15 @@ def scenarios_for(tier, triples=False):
             out.append(("%s || from: %s" % (" || ".join(c.label for c in calls), INITS[2][0]), INITS[2][1], calls))
             calls = [step.StoreMeta(0, 1, "c"), step.DeleteMeta(0, None, all_docs=True), step.StoreMeta(1, 0, "c")]
             out.append(("%s || from: %s" % (" || ".join(c.label for c in calls), INITS[2][0]), INITS[2][1], calls))
+            # unrelated documents that share nothing but directories: only the directories of (a,c) exist
+            import posixpath
+            needed = {posixpath.dirname(w.META[0][w.cell("c")])}
+            sparse = dict(INITS[1][1])
+            sparse.update({str(v): any(n == d or n.startswith(d + "/") for n in needed) for d, v in w.dirv.items()})
+            for other in (step.StoreMeta(1, 0, "c"), step.StoreMeta(0, 0, None)):
+                calls = [step.DeleteMeta(0, "c"), other]
+                out.append(("%s || from: %s, no other shard directory exists" % (
+                    " || ".join(c.label for c in calls), INITS[1][0]), sparse, calls))
         return out
     return fn
 
